@@ -279,7 +279,7 @@ fn nodes(v: &Value, ptr: String, out: &mut Vec<(String, String)>) {
     }
 }
 
-pub const FAULTS: [&str; 43] = [
+pub const FAULTS: [&str; 45] = [
     "two-variants", "no-variant", "unknown-variant", "node-string", "node-array", "node-null", "terminal-string", "terminal-null", "terminal-bool",
     "terminal-object", "missing-outcomes", "missing-actions", "missing-infoset", "missing-player-one", "missing-prob", "missing-state",
     "infoset-twice", "actions-twice", "outcomes-twice", "prob-twice", "player-one-number", "player-one-string", "infoset-number", "infoset-null",
@@ -295,6 +295,10 @@ pub const FAULTS: [&str; 43] = [
     // every chance node labelled with the EMPTY string: one chance infoset (a fault when their distributions differ: the
     // specification decides)
     "chance-labels-empty",
+    // two nodes each put below a new single-action decision node of ONE infoset of player one, the single action named alike
+    // ("forced-twins": a valid game unless recall is broken) or differently ("forced-twins-mismatch": the actions of an
+    // infoset differ) - the specification decides
+    "forced-twins", "forced-twins-mismatch",
 ];
 
 fn members_mut<'a>(doc: &'a mut Value, node: &str) -> Option<&'a mut Vec<Value>> {
@@ -319,6 +323,34 @@ pub fn apply_fault(doc: &Value, fault: &str, rng: &mut Rng) -> Option<Value> {
         "positional" | "positional-short" | "positional-long" | "positional-swapped" => &["chance", "player"],
         _ => &["player"],
     };
+    if fault == "forced-twins" || fault == "forced-twins-mismatch" {
+        if all.len() < 3 {
+            return None;
+        }
+        // two different nodes other than the root (deepest first, so that the pointer of the second stays valid)
+        let mut picks: Vec<String> = Vec::new();
+        for _ in 0..20 {
+            let (ptr, _) = &all[1 + rng.below(all.len() as u64 - 1) as usize];
+            if !picks.contains(ptr) && !picks.iter().any(|p| p.starts_with(ptr.as_str()) || ptr.starts_with(p.as_str())) {
+                picks.push(ptr.clone());
+            }
+            if picks.len() == 2 {
+                break;
+            }
+        }
+        if picks.len() < 2 {
+            return None;
+        }
+        let mut d = doc.clone();
+        for (j, ptr) in picks.iter().enumerate() {
+            let inner = d.pointer(ptr)?.clone();
+            let label = if fault == "forced-twins" || j == 0 { "a" } else { "b" };
+            let wrapped = obj(vec![("player".into(), obj(vec![("player_one".into(), boolean(true)), ("infoset".into(), st("~forced")),
+                ("actions".into(), obj(vec![(label.into(), inner)]))]))]);
+            *d.pointer_mut(ptr)? = wrapped;
+        }
+        return Some(d);
+    }
     if fault == "chance-labels-empty" {
         let chance: Vec<&(String, String)> = all.iter().filter(|(_, k)| k == "chance").collect();
         if chance.len() < 2 {
